@@ -86,6 +86,7 @@ func (ph *peerHandler) getAddrs() []multiaddr.Multiaddr {
 // stop permanently stops the peer handler.
 func (ph *peerHandler) stop() {
 	ph.cancel()
+	verifSched(ph, "stop:cancelled")
 
 	ph.mu.Lock()
 	defer ph.mu.Unlock()
@@ -111,6 +112,8 @@ func (ph *peerHandler) nextBackoff() time.Duration {
 }
 
 func (ph *peerHandler) reconnect() {
+	verifSched(ph, "reconnect")
+	defer verifSched(ph, "reconnect:done")
 	// Try connecting
 	addrs := ph.getAddrs()
 	logger.Debugw("reconnecting", "peer", ph.peer, "addrs", addrs)
@@ -136,6 +139,8 @@ func (ph *peerHandler) reconnect() {
 }
 
 func (ph *peerHandler) stopIfConnected() {
+	verifSched(ph, "stopIfConnected")
+	defer verifSched(ph, "stopIfConnected:done")
 	ph.mu.Lock()
 	defer ph.mu.Unlock()
 
@@ -149,6 +154,8 @@ func (ph *peerHandler) stopIfConnected() {
 
 // startIfDisconnected is the inverse of stopIfConnected.
 func (ph *peerHandler) startIfDisconnected() {
+	verifSched(ph, "startIfDisconnected")
+	defer verifSched(ph, "startIfDisconnected:done")
 	ph.mu.Lock()
 	defer ph.mu.Unlock()
 
@@ -193,6 +200,7 @@ func (ps *PeeringService) Start() error {
 	ps.host.Network().Notify((*netNotifee)(ps))
 	ps.state = StateRunning
 	for _, handler := range ps.peers {
+		verifSpawn(handler, "startIfDisconnected")
 		go handler.startIfDisconnected()
 	}
 	return nil
@@ -248,6 +256,7 @@ func (ps *PeeringService) AddPeer(info peer.AddrInfo) {
 		ps.peers[info.ID] = handler
 		switch ps.state {
 		case StateRunning:
+			verifSpawn(handler, "startIfDisconnected")
 			go handler.startIfDisconnected()
 		case StateStopped:
 			// We still construct everything in this state because
@@ -300,6 +309,7 @@ func (nn *netNotifee) Connected(_ network.Network, c network.Conn) {
 
 	if handler, ok := ps.peers[p]; ok {
 		// use a goroutine to avoid blocking events.
+		verifSpawn(handler, "stopIfConnected")
 		go handler.stopIfConnected()
 	}
 }
@@ -312,6 +322,7 @@ func (nn *netNotifee) Disconnected(_ network.Network, c network.Conn) {
 	defer ps.mu.RUnlock()
 
 	if handler, ok := ps.peers[p]; ok {
+		verifSpawn(handler, "startIfDisconnected")
 		// use a goroutine to avoid blocking events.
 		go handler.startIfDisconnected()
 	}
